@@ -376,6 +376,7 @@ def boundary_cases(tier):
     out.append(dict(kind="zeros", r=1, c=1))
     out.append(dict(kind="forms"))
     out.append(dict(kind="dtypes"))
+    out.append(dict(kind="asciidims"))
     out.append(dict(kind="names"))
     out.append(dict(kind="multi"))
     out.append(dict(kind="extra-input"))
@@ -418,16 +419,45 @@ def run_special(case, tier, res):
         for nm, M in Ms.items():
             run_matrix(M, tier, res, dict(case, which=nm), forms=(None, 1, 2, 6))
         return
+    if k == "asciidims":
+        # the 8-character integer fields of the ASCII format bound the matrix dimensions: at the documented limits a write
+        # either round-trips or is refused loudly - it never produces a file that cannot be read back
+        for (nr, nc), sparse in itertools.product(((2, 99999997), (2, 99999998), (2, 99999999), (2, 100000000), (99999998, 2), (99999999, 2), (100000000, 2)),
+                                                  ("bigmat", "nonbigmat", "auto")):
+            A = sp.coo_matrix(([1.5, -2.25, 3.0], ([0, 1, nr - 1], [0, nc - 1, 1])), shape=(nr, nc))
+            case2 = dict(case, shape=[nr, nc], sparse=sparse)
+            res.ev("asciidims/%s/%s" % ("cols" if nc > nr else "rows", sparse))
+            try:
+                op4.write(fname, "A", A, binary=False, sparse=sparse)
+            except ValueError as e:
+                res.exit("ASCII write refused loudly beyond the field-width limits")
+                continue
+            except Exception as e:  # noqa
+                res.viol(case2, "ASCII write of a %dx%d sparse matrix raised %r" % (nr, nc, e), kind="asciidims-write")
+                continue
+            try:
+                dn, ds, df, dt = op4.dir(fname, verbose=False)
+                ln, lm, lf, lt = op4.load(fname, into="list", sparse=True)
+                X = lm[0].tocoo()
+                got = sorted(zip(X.row.tolist(), X.col.tolist(), X.data.tolist()))
+                want = sorted(zip(A.row.tolist(), A.col.tolist(), A.data.tolist()))
+                if tuple(ds[0]) != (nr, nc) or X.shape != (nr, nc) or got != want:
+                    res.viol(case2, "ASCII write of a %dx%d sparse matrix was accepted but reads back as shape %s / %s with entries %s" % (nr, nc, tuple(ds[0]), X.shape, got[:4]), kind="asciidims-values")
+            except Exception as e:  # noqa
+                res.viol(case2, "ASCII write of a %dx%d sparse matrix (sparse=%s) was accepted, but the file cannot be read back: %r" % (nr, nc, sparse, e), kind="asciidims-read")
+        return
     if k == "dtypes":
         # matrices held in any numeric dtype (integer, unsigned, bool, single precision, complex64), dense or scipy sparse:
         # the file holds their VALUES (all exactly representable) in every layout
         M0 = np.array([[1, 0, -3], [0, 200, 0], [7, 0, 5], [0, -128, 0]])
-        for dt in (np.int64, np.int32, np.int16, np.int8, np.uint8, np.uint16, np.uint32, np.float32, np.complex64, bool):
+        for dt in (np.int64, np.int32, np.int16, np.int8, np.uint8, np.uint16, np.uint32, np.float32, np.complex64, bool, ">f8", "<f8", ">c16", "<c16", ">f4", ">i4"):
             A = (M0 != 0) if dt is bool else (np.abs(M0) if np.dtype(dt).kind == "u" else (np.clip(M0, -128, 127) if dt is np.int8 else M0)).astype(dt)
             if np.dtype(dt).kind == "c":
                 A = A * (1 + 0.5j)
             want = np.asarray(A).astype(complex if np.dtype(dt).kind == "c" else float)
             for binary, sparse, cont in itertools.product((True, False), ("dense", "bigmat", "nonbigmat"), ("ndarray", "csr", "coo", "fortran")):
+                if cont in ("csr", "coo") and np.dtype(dt).byteorder == ">":
+                    continue  # (scipy.sparse wants native byte order)
                 X = A if cont == "ndarray" else np.asfortranarray(A) if cont == "fortran" else {"csr": sp.csr_matrix, "coo": sp.coo_matrix}[cont](A)
                 case2 = dict(case, dtype=np.dtype(dt).name, binary=binary, sparse=sparse, container=cont)
                 res.ev("dtypes/%s/%s/b%d/%s" % (np.dtype(dt).name, cont, binary, sparse))
